@@ -483,7 +483,7 @@ fn stage_family(s: &pipelines::Stage) -> &'static str {
         Stage::S(Simple::Scan) => "scan",
         Stage::S(Simple::Take(_)) => "take",
         Stage::S(Simple::Skip(_)) => "skip",
-        Stage::ConcatAfter(..) | Stage::ConcatBefore(..) | Stage::ConcatSelf => "concat",
+        Stage::ConcatAfter(..) | Stage::ConcatBefore(..) | Stage::ConcatSelf | Stage::Concat3After(..) | Stage::Concat3Middle(..) => "concat",
         Stage::FlatMap(..) | Stage::FlatMapShared(..) => "flatten",
     }
 }
